@@ -835,8 +835,71 @@ def run_objects(req):
     return {"obs": obs, "stats": {"objects": n}}
 
 
+def run_unreadable_source(req):
+    """frames whose source text cannot be fetched - a file name the operating system refuses (a lone surrogate: compile()
+    accepts it), a module whose loader's get_source() raises - with and without a fault on top: the Stack formats and
+    summarises all the same, the line of source simply missing"""
+    import stackscope
+    obs = []
+
+    class BadLoader:
+        def get_source(self, name):
+            raise ValueError("this loader cannot decode its source")
+
+    src = "def g(hook):\n    with open('/dev/null') as f:\n        yield hook\n"
+    for how in ("surrogate_filename", "failing_loader"):
+        for fault in (False, True):
+            ns = {"__name__": "unreadable_%s" % how}
+            fname = "bad\ud800name.py" if how == "surrogate_filename" else "<unreadable-%d>" % fault
+            if how == "failing_loader":
+                ns["__loader__"] = BadLoader()
+            exec(compile(src, fname, "exec"), ns)
+            g = ns["g"](None)
+            next(g)
+            item = g
+            if fault:
+                class Wrapper:
+                    pass
+                w = Wrapper()
+
+                @stackscope.unwrap_stackitem.register(Wrapper)
+                def _unwrap(x, g=g):
+                    return [g, Failing()]
+
+                class Failing:
+                    pass
+
+                @stackscope.unwrap_stackitem.register(Failing)
+                def _fail(x):
+                    raise ValueError("injected")
+                item = w
+            try:
+                st = stackscope.extract(item)
+            except BaseException as ex:
+                obs.append({"kind": "extract_raised", "how": how, "exc": repr(ex)})
+                continue
+            if fault and st.error is None:
+                obs.append({"kind": "fault_not_reported", "how": how})
+            if not st.frames:
+                obs.append({"kind": "frames_lost", "how": how})
+            for what, fn in (("str", lambda: str(st)), ("format", lambda: st.format(ascii_only=True, show_hidden_frames=True)),
+                             ("format_flat", lambda: st.format_flat(show_contexts=True)),
+                             ("summary", lambda: st.as_stdlib_summary(show_contexts=True).format()),
+                             ("summary_locals", lambda: st.as_stdlib_summary(show_contexts=True, capture_locals=True).format())):
+                try:
+                    fn()
+                except BaseException as ex:
+                    obs.append({"kind": "result_cannot_be_formatted_or_summarised", "how": how, "fault": fault, "what": what,
+                                "exc": repr(ex)[:160]})
+                    break
+            g.close()
+    return {"obs": obs[:4], "stats": {"objects": 4}}
+
+
 def handle(req):
     op = req["op"]
+    if op == "faults.unreadable_source":
+        return run_unreadable_source(req)
     if op == "faults.c05":
         return run_c05(req)
     if op == "faults.objects":
